@@ -263,9 +263,15 @@ def _default_neg(exp):
         if first is None:
             return None
         return type(exp)([first] + list(exp[1:]))
+    if isinstance(exp, (bool, np.bool_)):
+        return not bool(exp)
+    if isinstance(exp, SymBool):
+        return ~exp
     if hasattr(exp, "toarray"):
         exp = exp.toarray()
     a = np.asarray(exp, dtype=object) if is_symbolic(exp) else np.asarray(exp)
+    if a.dtype == bool:
+        return ~a
     if a.size < 2:
         if a.size == 1:
             b = a.copy()
